@@ -110,6 +110,7 @@ struct Model {
 	// set when the head tie group mixes entries without an observable callback (internal common-timeout
 	// timer, loopexit, zero-call signal activation) with observable ones: the real order is a heap detail
 	bool ambiguous = false;
+	bool max_uncertain_added = false, max_uncertain_active = false;	// until the next clearing query of that maximum
 	bool hidden(const QE &q) const {
 		if (q.kind != 0) return false;
 		const Ev &e = evs[q.idx];
@@ -408,6 +409,7 @@ struct Model {
 			bool was_active = e.act != A_NONE;
 			if (!was_active) del(i); else q_remove_timeout(i);
 			if (e.deadline != tie_dl) { tie = tie_seq++; tie_dl = e.deadline; }
+			else max_uncertain_added = max_uncertain_active = true;	// timers due at the same instant leave the heap in an order the model does not know: the transient maxima of the counters depend on it
 			bool newly = e.act == A_NONE || e.act == A_LATER;
 			active(i, R_TIMEOUT, 1);
 			if (newly && !aq[e.pri].empty() && aq[e.pri].back().idx == i) aq[e.pri].back().tie = tie;
